@@ -242,7 +242,11 @@ def extract_branch_results_with_internals(net, branch_results, table_name,
             pt = placement_table[connected_ind]
 
             for i, (res_name, entry) in enumerate(res_mean_hydraulics):
-                res_table[res_name].values[pt] = res[i + 3][connected_ind] / num_internals
+                if entry == "dp_frict_loss":
+                    # the friction losses of the sections add up to the loss of the element
+                    res_table[res_name].values[pt] = res[i + 3][connected_ind]
+                else:
+                    res_table[res_name].values[pt] = res[i + 3][connected_ind] / num_internals
         if len(res_branch) > 0:
             # the sections of one element are stored consecutively in the pit (in the order of the table), so the
             # first / last section of each element are the positions where the element index changes
